@@ -100,7 +100,7 @@ func (s stageSpec) methods() []string {
 }
 
 const (
-	vAbsent = iota
+	vAbsent  = iota
 	vPass    // returns the Permissions object it was given
 	vReplace // returns a new Permissions object (vpkcPerm)
 	vReject
